@@ -50,6 +50,11 @@ def place_demo(cand, wt):
             d = os.path.dirname(d)
         if os.path.isdir(os.path.join(wt, d)) and d not in dirs:
             dirs.append(d)
+    first = txt.strip().splitlines()[0].strip().strip("`").rstrip("/") if txt.strip() else ""
+    if first.startswith("./"):
+        first = first[2:]
+    if first and " " not in first and os.path.isdir(os.path.join(wt, first)):
+        dirs = [first] + [d for d in dirs if d != first]   # round 5 convention: line 1 = directory of the demo file
     placed = []
     for f in files:
         dest = None
